@@ -319,7 +319,7 @@ def _formulas(ctx, repo):
     sn = forward(f.node)
     r = [s for s in statements(f.node) if isinstance(s, ast.Return)]
     got = str(sym_at(sn, r[0], r[0].value))
-    ctx.check(got == "max(concat([1], [max(concat([0], _b0)) for _b0 in crossing_trials]))", R, f, got,
+    ctx.check(got.startswith("max(concat([1], [max(concat([0], _b0)) for _b0 in ") and got.endswith("]))"), R, f, got,
               "requirement = maximum over crossings (at least 1)", "crossing requirement is `%s`" % got, r[0])
 
     # the size each crossing is measured against: POST_PREAMBLE aligns all crossings after the unified preamble, so every
